@@ -534,7 +534,7 @@ func c13StdGraphs() ([]c13Input, map[string]string) {
 }
 
 func checkC13(c *Check) {
-	c.Rule = "hostile inputs fed to the real Transpile in child worker processes (recover + death/hang detection + isolated confirmation): all single-token edits (delete, duplicate, swap, truncate before and right after the token, replace by 66 representative lexemes) of a corpus of valid programs (sampled in the quick tier), random double edits, random bytes / token-alphabet bytes / token soups, semantic near-misses (void and multi-value calls at every operand position, malformed headers and literals), an argument matrix (52 operand positions of builtins, indexing forms and statements x 40 kinds of expression), the enumerated program families of C01-C04, the cells of C06's typing table and C07's scope table (every typed position x every kind of offered expression; every statement at every site), control-flow/definition statements placed in all pairs of 14 enclosing contexts (open and already closed loops, switch cases, functions, branches), configurations (missing/empty/directory main file, broken imports, all 512 import graphs over three files incl. self- and mutual imports, all 16 graphs over two modules of the std directory in both import styles reached from the main file and from a local library, chains of 40 files, call graphs with shared callees: Fibonacci-style up to 200 functions, layered 3x30 and 5x12, chains of 300; 25 single constructs of large size: 80-term sums, 60-operand chains of every operator family, parentheses / calls / blocks nested 40-60 deep, 100 switch cases, 600 statements, 60 parameters, 400-element literals, 20 000-character literals and comments); oracle = result-shape predicate (exactly one of script / error, non-empty error text, no panic, no worker death, return within the bound) for both targets. Non-trivial = every input; distinct = SHA-256 of the input files"
+	c.Rule = "hostile inputs fed to the real Transpile in child worker processes (recover + death/hang detection + isolated confirmation): all single-token edits (delete, duplicate, swap, truncate before and right after the token, replace by 66 representative lexemes) of a corpus of valid programs (sampled in the quick tier), random double edits, random bytes / token-alphabet bytes / token soups, semantic near-misses (void and multi-value calls at every operand position, malformed headers and literals), an argument matrix (52 operand positions of builtins, indexing forms and statements x 40 kinds of expression), the enumerated program families of C01-C04, the cells of C06's typing table and C07's scope table (every typed position x every kind of offered expression; every statement at every site), control-flow/definition statements placed in all pairs of 14 enclosing contexts (open and already closed loops, switch cases, functions, branches), configurations (missing/empty/directory main file, broken imports, all 512 import graphs over three files incl. self- and mutual imports, all 16 graphs over two modules of the std directory in both import styles reached from the main file and from a local library, chains of 40 files, call graphs with shared callees: Fibonacci-style up to 200 functions, layered 3x30 and 5x12, chains of 300; 25 single constructs of large size: 80-term sums, 60-operand chains of every operator family, parentheses / calls / blocks nested 40-60 deep, 100 switch cases, 600 statements, 60 parameters, 400-element literals, 20 000-character literals and comments; operations on constant operands only (8 operators x 11 x 11 zero / unit / limit values, grouped and nested); layered diamonds of imports (6 and 20 layers of two files); constructs nested 12 000 - 60 000 deep in a worker whose stack is limited to 128 MB, a death there being decided by a run 20 times deeper under Go's own 1 GB limit); oracle = result-shape predicate (exactly one of script / error, non-empty error text, no panic, no worker death, return within the bound) for both targets. Non-trivial = every input; distinct = SHA-256 of the input files"
 	c.Assumptions = []string{"termination bound: 20 s in a loaded worker, then 90 s alone in a fresh worker; a hit is reported only after the isolated confirmation (normal cost is milliseconds)", "worker stack limit 256 MiB so that unbounded recursion dies quickly"}
 	runProbes(c, bashProbeJudge)
 	r := rand.New(rand.NewSource(c.Seed*13000027 + 3))
